@@ -739,3 +739,9 @@ def rule_prefix(ctx, F):
                         names.add(t["fn"].split("::")[-1])
         ctx.ob(R, b, "data composer", names == {wantc},
                "%s must write the data with %s in both arms (found %s)" % (name, wantc, sorted(names)))
+
+
+def run_thorough(ctx):
+    # type-level part of the property: compile-fail witnesses (rules/witness.py)
+    import witness
+    witness.run(ctx, "C02")
